@@ -50,6 +50,12 @@ class FillSeq(LenaSequence):
         super(FillSeq, self).__init__(*args)
 
         seq = []
+        if not self._data_seq:
+            # all arguments are elements without data (like SetContext)
+            raise exceptions.LenaTypeError(
+                "FillSeq must have at least one element with a fill method, "
+                "{} given".format(args)
+            )
         last = self._data_seq[-1]
 
         if not callable(getattr(last, "fill", None)):
